@@ -135,7 +135,11 @@ func runCase(c *simrt.Case) *simrt.CallResult {
 	w := simrt.NewWorld(&c.World)
 	simrt.W = w
 	defer func() { simrt.W = nil }()
-	call(w, newTranspiler(), c.Path, c.Target, res, c.ReturnScript)
+	tr := newTranspiler()
+	for _, t := range c.Warmup {
+		call(w, tr, c.Path, t, &simrt.CallResult{}, false)
+	}
+	call(w, tr, c.Path, c.Target, res, c.ReturnScript)
 	res.TraceDigest = w.TraceDigest()
 	if c.ReturnTrace {
 		res.Trace = w.Trace
